@@ -134,3 +134,46 @@ V("c02-benign-cek-check-order", "C02", "benign", "", "multiple/empty CEK guards 
 V("c02-benign-aad-local", "C02", "benign", "", "received header bound to a local first",
   "rfc7516/message.py", '    aad = obj.base64_segments["aad"]\n    if isinstance(obj, BaseJSONEncryption) and obj.aad:\n        aad = aad + b"." + urlsafe_b64encode(obj.aad)\n\n    msg = enc.decrypt(',
   '    header_segment = obj.base64_segments["aad"]\n    aad = header_segment\n    if isinstance(obj, BaseJSONEncryption) and obj.aad:\n        aad = b".".join([header_segment, urlsafe_b64encode(obj.aad)])\n\n    msg = enc.decrypt(')
+
+# ------------------------------------------------------------------------------------------------ C06
+V("c06-drop-check-use-validate", "C06", "break", "R06.1", "check_use removed from validate_compact",
+  "jws.py", "    key: Key = guess_key(public_key, obj)\n    key.check_use(\"sig\")\n", "    key: Key = guess_key(public_key, obj)\n")
+V("c06-drop-check-use-decrypt", "C06", "break", "R06.1", "check_use removed from decrypt_compact",
+  "jwe.py", "    key = guess_key(private_key, recipient)\n    key.check_use(\"enc\")\n    recipient.recipient_key = key\n    if sender_key:\n        recipient.sender_key = _guess_sender_key(recipient, sender_key)\n    perform_decrypt",
+  "    key = guess_key(private_key, recipient)\n    recipient.recipient_key = key\n    if sender_key:\n        recipient.sender_key = _guess_sender_key(recipient, sender_key)\n    perform_decrypt")
+V("c06-wrong-use-literal", "C06", "break", "R06.1", "JWS signing checks use 'enc'",
+  "jws.py", "    key: Key = guess_key(private_key, obj, True)\n    key.check_use(\"sig\")", "    key: Key = guess_key(private_key, obj, True)\n    key.check_use(\"enc\")")
+V("c06-preset-recipient-key-unchecked", "C06", "break", "R06.1", "encrypt_json skips check_use for preset recipient keys",
+  "jwe.py", "        else:\n            recipient.recipient_key.check_use(\"enc\")\n", "")
+V("c06-hmac-verify-raw-value", "C06", "break", "R06.2", "HMAC verify keys the MAC with key.raw_value",
+  "rfc7518/jws_algs.py", "        op_key = key.get_op_key(\"verify\")\n        v_sig = hmac.new", "        op_key = key.raw_value\n        v_sig = hmac.new")
+V("c06-rsa-decrypt-wrong-op", "C06", "break", "R06.2", "RSA decrypt_cek asks for the 'encrypt' operation key",
+  "rfc7518/jwe_algs.py", "        op_key = key.get_op_key(\"decrypt\")", "        op_key = key.get_op_key(\"encrypt\")")
+V("c06-check-key-op-skips-private", "C06", "break", "R06.2", "check_key_op no longer requires private material",
+  "rfc7517/models.py", "        if reg.private and not self.is_private:\n            raise UnsupportedKeyOperationError(f'Invalid key_op \"{operation}\" for public key')\n", "")
+V("c06-check-key-op-ops-only-if-use", "C06", "break", "R06.2", "key_ops only consulted when listed AND use present",
+  "rfc7517/models.py", "        if key_ops is not None and operation not in key_ops:", "        if key_ops is not None and self.get(\"use\") and operation not in key_ops:")
+V("c06-verify-not-private-flag", "C06", "break", "R06.2", "sign no longer needs private material in the registry",
+  "registry.py", '"sign": KeyOperation("compute digital signature or MAC", "sig", True),', '"sign": KeyOperation("compute digital signature or MAC", "sig", False),')
+V("c06-ec-sign-no-curve-check", "C06", "break", "R06.3", "ECAlgModel.sign without _check_key",
+  "rfc7518/jws_algs.py", "        self._check_key(key)\n        op_key = key.get_op_key(\"sign\")", "        op_key = key.get_op_key(\"sign\")")
+V("c06-ec-verify-no-curve-check", "C06", "break", "R06.3", "ECAlgModel.verify without _check_key",
+  "rfc7518/jws_algs.py", "        self._check_key(key)\n        key_size = key.curve_key_size", "        key_size = key.curve_key_size")
+V("c06-es384-wrong-curve", "C06", "break", "R06.3", "ES384 bound to P-256",
+  "rfc7518/jws_algs.py", 'ECAlgModel("ES384", "P-384", 384),', 'ECAlgModel("ES384", "P-256", 384),')
+V("c06-unwrap-no-size-check", "C06", "break", "R06.4", "AES unwrap without check_op_key",
+  "rfc7518/jwe_algs.py", "    def unwrap_cek(self, ek: bytes, key: bytes) -> bytes:\n        self.check_op_key(key)\n        try:", "    def unwrap_cek(self, ek: bytes, key: bytes) -> bytes:\n        try:")
+V("c06-size-gate-ge", "C06", "break", "R06.4", "check_op_key only refuses short keys",
+  "rfc7516/models.py", "        if len(op_key) * 8 != self.key_size:", "        if len(op_key) * 8 < self.key_size:")
+V("c06-rsa-1024", "C06", "break", "R06.4", "RSA minimum key size lowered to 1024",
+  "rfc7518/jwe_algs.py", "    key_size = 2048\n    key_types = [\"RSA\"]", "    key_size = 1024\n    key_types = [\"RSA\"]")
+V("c06-dir-size-ge", "C06", "break", "R06.4", "dir accepts longer keys",
+  "rfc7518/jwe_algs.py", "        if len(cek) * 8 != size:", "        if len(cek) * 8 < size:")
+V("c06-unsafe-warning-pem-only", "C06", "break", "R06.5", "OpenSSH prefixes dropped from the unsafe list",
+  "rfc7518/oct_key.py", "    b\"ssh-rsa \",\n    b\"ssh-dss \",\n    b\"ssh-ed25519 \",\n    b\"ecdsa-sha2-\",\n", "")
+V("c06-benign-check-use-after-alg", "C06", "benign", "", "check_use moved after get_alg in serialize_compact",
+  "jws.py", "    alg: JWSAlgModel = registry.get_alg(protected[\"alg\"])\n    key: Key = guess_key(private_key, obj, True)\n    key.check_use(\"sig\")\n    alg.check_key_type(key)",
+  "    key: Key = guess_key(private_key, obj, True)\n    alg: JWSAlgModel = registry.get_alg(protected[\"alg\"])\n    key.check_use(\"sig\")\n    alg.check_key_type(key)")
+V("c06-benign-inline-check-key", "C06", "benign", "", "_check_key inlined into ECAlgModel.sign",
+  "rfc7518/jws_algs.py", "        self._check_key(key)\n        op_key = key.get_op_key(\"sign\")",
+  "        if key.curve_name != self.curve:\n            raise ValueError(\"wrong curve\")\n        op_key = key.get_op_key(\"sign\")")
